@@ -15,6 +15,7 @@ import Golib.Lists.Typed
 import Golib.Lists.Sort
 import Golib.Gen.Locks
 import Golib.Conc.LockFacts
+import Golib.Lists.Table
 
 namespace C13Gen
 open Lists
@@ -112,6 +113,27 @@ theorem compareChild_dispatch : Gen.C13.compareChild =
 theorem create_inverts_getType : Gen.C13.create =
     [(1, "NewIntListDefault"), (2, "NewLongListDefault"), (3, "NewFloatListDefault"),
      (4, "NewDoubleListDefault"), (0, "NewStringListDefault")] := by decide
+
+/-- the type code of the list a constructor of util/list builds -/
+def tyOfCtor (c : String) : Nat :=
+  if c = "NewIntListDefault" then 1 else if c = "NewLongListDefault" then 2
+  else if c = "NewFloatListDefault" then 3 else if c = "NewDoubleListDefault" then 4
+  else if c = "NewStringListDefault" then 5 else 0
+
+/-- **create, interpreted.**  `StatGeneralPack.create`, compiled from its switch statement, builds for
+    EVERY type byte a list whose type is the one the model's `Table.create` gives (unknown codes →
+    StringList) -/
+theorem create_is_model (t : Nat) : tyOfCtor (Gen.C13.createF t) = (Lists.Table.create t).ty := by
+  simp only [Gen.C13.createF, Lists.Table.create]
+  by_cases h1 : t = 1
+  · subst h1; decide
+  by_cases h2 : t = 2
+  · subst h2; decide
+  by_cases h3 : t = 3
+  · subst h3; decide
+  by_cases h4 : t = 4
+  · subst h4; decide
+  simp [h1, h2, h3, h4, tyOfCtor]
 
 /-! ### interpreted comparator code
 
